@@ -2,7 +2,8 @@
    Print Assumptions only. The pins in tools/pins/C20.v re-check the statements. *)
 From Coq Require Import List NArith Bool.
 From V.gen Require Consts.
-From V.C20 Require Import Model Proofs.
+From V.common Require Protobuf.
+From V.C20 Require Import Model Proofs Bytes.
 Import ListNotations.
 Open Scope N_scope.
 
@@ -433,6 +434,59 @@ Theorem C20_request_lossless :
     filter (fits (cid * want_type) (fun _ => 0) sw_elen req_mlen 0 mm) cids.
 Proof. exact request_lossless. Qed.
 Print Assumptions C20_request_lossless.
+
+(* ---------------- bytes on the wire ---------------- *)
+
+(* The sizes that the batching counts (encoded_want_size, encoded_presence_size,
+   encoded_block_size, the empty wantlist, the wantlist wrapper) are the lengths of the byte
+   strings the generic protobuf encoder produces for the three messages — as long as sizes fit
+   64 bits (the `no usize overflow` assumption, here explicit). *)
+Theorem C20_request_bytes_length :
+  forall cids, request_len cids < 2 ^ 64 -> Protobuf.blen (request_bytes cids) = request_len cids.
+Proof. exact request_bytes_length. Qed.
+Print Assumptions C20_request_bytes_length.
+
+Theorem C20_presences_bytes_length :
+  forall l, message_len spres sp_elen blk_mlen l < 2 ^ 64 ->
+    Protobuf.blen (presences_bytes l) = message_len spres sp_elen blk_mlen l.
+Proof. exact presences_bytes_length. Qed.
+Print Assumptions C20_presences_bytes_length.
+
+Theorem C20_blocks_bytes_length :
+  forall l, message_len cblock cb_elen blk_mlen l < 2 ^ 64 ->
+    Protobuf.blen (blocks_bytes l) = message_len cblock cb_elen blk_mlen l.
+Proof. exact blocks_bytes_length. Qed.
+Print Assumptions C20_blocks_bytes_length.
+
+(* so the bounds hold for the bytes: every blocks message of send_response is a byte string of at
+   most max_message_size bytes holding at most max_batch_size bytes of data, none is empty, and
+   together they carry exactly the blocks that fit, once and in order; likewise presences, requests *)
+Theorem C20_wire_blocks_bounded :
+  forall mb mm l, mm < 2 ^ 64 ->
+    Forall (fun batch => batch <> [] /\ sum (map cb_dlen batch) <= mb /\ Protobuf.blen (blocks_bytes batch) <= mm)
+           (send_response_cblocks mb mm l) /\
+    concat (send_response_cblocks mb mm l) = filter (fits cblock cb_dlen cb_elen blk_mlen mb mm) l.
+Proof. exact wire_blocks_bounded. Qed.
+Print Assumptions C20_wire_blocks_bounded.
+
+Theorem C20_wire_presences_bounded :
+  forall mm l, mm < 2 ^ 64 ->
+    Forall (fun batch => batch <> [] /\ Protobuf.blen (presences_bytes batch) <= mm) (send_response_presences mm l).
+Proof. exact wire_presences_bounded. Qed.
+Print Assumptions C20_wire_presences_bounded.
+
+Theorem C20_wire_requests_bounded :
+  forall mm cids, 2 <= mm -> mm < 2 ^ 64 ->
+    Forall (fun batch => Protobuf.blen (request_bytes batch) <= mm) (send_request_msgs mm cids).
+Proof. exact wire_requests_bounded. Qed.
+Print Assumptions C20_wire_requests_bounded.
+
+(* what send_request writes parses back (prost's generic field parser) to the fields it was built from *)
+Theorem C20_request_bytes_parse :
+  forall cids, request_len cids < 2 ^ 64 ->
+    Protobuf.pb_parse (request_bytes cids) = Protobuf.Ok (request_fields cids).
+Proof. exact request_bytes_parse. Qed.
+Print Assumptions C20_request_bytes_parse.
 
 (* ---------------- the event loop: queues, connections, dials ---------------- *)
 
